@@ -9,8 +9,8 @@
     covered by a theorem: there the rendered bytes are compared with the generator's denotation on generated
     templates and environments by the C01 check.  Attribute names are covered for plain characters (F06).
     OBLIGATIONS: C01_static_tree_reads_as_its_html C01_static_body_reads_as_its_html C01_static_template_code
-                 C01_static_template_literal_value C01_nonvacuous *)
-From GV Require Import Compiler.Compile Proofs.Utf8Proofs Proofs.QuoteProofs Proofs.EmitProofs Proofs.StaticProofs.
+                 C01_static_template_literal_value C01_static_document_survives_whitespace_pass C01_nonvacuous *)
+From GV Require Import Compiler.Compile Base.Regex Proofs.Utf8Proofs Proofs.QuoteProofs Proofs.EmitProofs Proofs.StaticProofs Proofs.StaticNukeProofs.
 From Coq Require Import Lia.
 Open Scope N_scope.
 
@@ -51,6 +51,15 @@ Theorem C01_static_template_literal_value : forall p h, reads_as p h -> go_unquo
 Proof. exact reads_as_literal. Qed.
 Print Assumptions C01_static_template_literal_value.
 
+(** Buffer.Bytes() then runs the whitespace-removal pass over what was written: on the HTML of a static tree whose
+    literals hold neither `~` nor the first byte of the radioactive sign it is the identity, so the destination
+    receives exactly [html_list] (the protocol from buffer to destination is C12) *)
+Theorem C01_static_document_survives_whitespace_pass : forall l,
+  (fix all (l : list node) : Prop := match l with [] => True | c :: r => clean_node c /\ all r end) l ->
+  nuke (html_list l) = html_list l.
+Proof. exact nuke_static_document. Qed.
+Print Assumptions C01_static_document_survives_whitespace_pass.
+
 (** the hypotheses are met by what the parser produces for a real template, and the denoted HTML is the expected one *)
 Definition ex_src : bytes :=
   lit "@goht T() {" ++ [10; 9] ++ lit "!!!" ++ [10; 9] ++ lit "%p#i.c.d{a: ""v<"", b}" ++ [10; 9; 9] ++ lit "t & <b>" ++ [10; 9; 9] ++
@@ -62,6 +71,7 @@ Example C01_nonvacuous :
   match ex_items with
   | Node (KGoht o) (c :: rest) :: _ =>
       Forall static_node (c :: rest) /\
+      (fix all (l : list node) : Prop := match l with [] => True | c :: r => clean_node c /\ all r end) (c :: rest) /\
       html_list (c :: rest) =
         lit "<!DOCTYPE html>" ++ [10] ++ lit "<p id=""i"" class=""c d"" a=""v&lt;"" b>" ++ [10] ++ lit "t & <b>" ++ [10] ++ lit "<br>" ++
         lit "<!--note-->" ++ [10] ++ lit "<em>x</em>" ++ [10] ++ lit "</p>" ++ [10]
@@ -87,6 +97,14 @@ Proof.
       | |- Forall _ (t_lit _) => cbn
       end.
     repeat st1. all: try lia; try discriminate; try reflexivity.
-  - vm_compute. reflexivity.
+  - split; [|vm_compute; reflexivity].
+    cbn. unfold clean_elem, clean_attr, clean. cbn.
+    repeat match goal with
+    | |- _ /\ _ => split
+    | |- Forall _ [] => constructor
+    | |- Forall _ (_ :: _) => constructor
+    | |- True => exact I
+    | |- ~ _ => let H := fresh in intro H; repeat (destruct H as [H|H]; try discriminate); try contradiction
+    end.
 Qed.
 Print Assumptions C01_nonvacuous.
